@@ -15,10 +15,16 @@ def SingleLimit : Prop :=
       | some evs =>
         (evs.filter (fun e => e == .atomicLoadLimit)).length == 1 &&
         !(evs.any (fun e => e == .plainReadLimit || e == .plainWriteLimit))
+      | none => false) = true ∧
+    -- the walk and the result construction never look at the variable again: they work with the
+    -- value they were handed
+    (["MIME.match", "MIME.clone", "MIME.cloneHierarchy", "MIME.lookup", "MIME.flatten"].all fun n =>
+      match Gen.Sync.progs.lookup n with
+      | some evs => !(evs.any (fun e => e == .atomicLoadLimit || e == .atomicStoreLimit || e == .plainReadLimit || e == .plainWriteLimit))
       | none => false) = true
 
 theorem single_limit : SingleLimit := by
   unfold SingleLimit
-  decide
+  exact ⟨by decide, by decide⟩
 
 end Mime.DetectTie
